@@ -4,6 +4,7 @@
 package json
 
 import (
+	"bytes"
 	"fmt"
 
 	"github.com/apparentlymart/go-textseg/v15/textseg"
@@ -230,6 +231,14 @@ Byte:
 			// grapheme to be a "column".
 			// Ignoring error because this scanner cannot produce errors.
 			advance, _, _ := textseg.ScanGraphemeClusters(buf[i:], true)
+
+			// A quote or backslash is never part of the content we skip
+			// here, even when the segmentation rules attach it to a
+			// preceding "prepend" character such as U+0600: the closing
+			// quote must still be found.
+			if j := bytes.IndexAny(buf[i+1:i+advance], "\"\\"); j >= 0 {
+				advance = j + 1
+			}
 
 			p.Pos.Byte += advance
 			p.Pos.Column++
